@@ -238,6 +238,8 @@ func init() {
 			m.cfg.MaxThreads = v
 		case "sched_fixed":
 			m.cfg.SchedFixed = v != 0
+		case "hrw_score_uninterpreted":
+			m.cfg.HrwScoreUF = v != 0
 		case "max_decisions":
 			m.cfg.MaxDecisions = v
 		case "max_concretize":
